@@ -32,7 +32,9 @@ fn exec_line(line: &str) -> String {
     let toks: Vec<&str> = line.split(' ').collect();
     let (op, args) = (toks[0], &toks[1..]);
     let t0 = std::time::Instant::now();
-    let res = if op.starts_with("et.") {
+    let res = if op == "c04.parse" || op.starts_with("c05.") || op.starts_with("c06.") {
+        syn::exec(op, args)
+    } else if op.starts_with("et.") {
         c19::exec(op, args)
     } else if ["ev.", "c01.", "c02.", "c03.", "c04.", "c08.", "c16.", "c17."].iter().any(|p| op.starts_with(p)) {
         ev::exec(op, args)
@@ -52,8 +54,6 @@ fn exec_line(line: &str) -> String {
         nz::exec(op, args)
     } else if op.starts_with("tz.") {
         tz::exec(op, args)
-    } else if op.starts_with("syn.") || op.starts_with("syn4.") {
-        syn::exec(op, args)
     } else if op.starts_with("sch.") {
         c14::exec(op, args)
     } else if op.starts_with("usv.") {
@@ -98,8 +98,8 @@ fn main() {
                 "c18" => c18::gen(tier, &mut rng, &mut emit),
                 "py" => py::gen(tier, &mut rng, &mut emit),
                 "c11" => c11::gen(tier, &mut rng, &mut emit),
-                "syn" => syn::gen(tier, &mut rng, &mut emit),
-                "syn4" => syn::gen4(tier, &mut rng, &mut emit),
+                "c05" | "c06" => syn::gen(suite, tier, &mut rng, &mut emit),
+                "c04p" => syn::gen4(tier, &mut rng, &mut emit),
                 _ => {
                     eprintln!("unknown suite {suite}");
                     std::process::exit(2);
